@@ -1,17 +1,58 @@
 //! Harness binary `h_kad_c <PROP> --seed S --tier T [--count N] [--replay F]`.
 //! One module per property (`cNN.rs`, `pub fn run(args: &hcore::Args, out: &mut hcore::Out)`).
 
+mod c42;
+mod c44;
+
+/// A *frozen* monotonic clock: once `clock::freeze(ns)` was called, `Instant::now()` returns exactly
+/// the value last set with `clock::set` / advanced with `clock::warp`, so that no output of a
+/// check depends on how fast the harness runs.  (Same interposition technique as
+/// `hcore::install_clock!`, which only adds an offset to the running clock.)
+pub mod clock {
+    use std::sync::atomic::{AtomicBool, AtomicU64, Ordering::SeqCst};
+    pub static FROZEN: AtomicBool = AtomicBool::new(false);
+    pub static NOW_NS: AtomicU64 = AtomicU64::new(0);
+
+    pub fn freeze(ns: u64) {
+        NOW_NS.store(ns, SeqCst);
+        FROZEN.store(true, SeqCst);
+    }
+    pub fn warp(ns: u64) {
+        NOW_NS.fetch_add(ns, SeqCst);
+    }
+    pub fn now_ns() -> u64 {
+        NOW_NS.load(SeqCst)
+    }
+
+    extern "C" {
+        fn __clock_gettime(clk: i32, ts: *mut [i64; 2]) -> i32;
+    }
+
+    /// # Safety
+    /// called by libc users with a valid `timespec` pointer
+    #[no_mangle]
+    pub unsafe extern "C" fn clock_gettime(clk: i32, ts: *mut [i64; 2]) -> i32 {
+        if clk == 1 && FROZEN.load(SeqCst) {
+            let n = NOW_NS.load(SeqCst);
+            (*ts)[0] = (n / 1_000_000_000) as i64;
+            (*ts)[1] = (n % 1_000_000_000) as i64;
+            return 0;
+        }
+        __clock_gettime(clk, ts)
+    }
+}
+
 fn main() {
     let args = hcore::Args::parse();
     hcore::quiet_panics();
     let mut out = hcore::Out::new();
     match args.prop.as_str() {
+        "C42" => c42::run(&args, &mut out),
+        "C44" => c44::run(&args, &mut out),
         p => {
-            let _ = &mut out;
             eprintln!("h_kad_c: unknown property {p}");
             std::process::exit(2);
         }
     }
-    #[allow(unreachable_code)]
     out.flush();
 }
